@@ -5003,3 +5003,72 @@ func runConstructedErrorUsed(rr *RuleRun) {
 		})
 	})
 }
+
+// ---------------------------------------------------------------------------
+// C11.shadowed-case — a case that can never be taken
+
+func init() {
+	register(&Rule{
+		ID: "C11.shadowed-case", Prop: "C11", Also: []string{"C01", "C07", "C08", "C12", "C15", "C16", "C17", "C18", "C19"}, Floor: 60, Controls: 1,
+		Doc: "in a tagless switch no case is shadowed by an earlier one: if every conjunct of an earlier case's condition also occurs among the conjuncts of a later case's condition (after canonical rendering), the later case can never be taken — its more specific handling (a dedicated error, a different result type) is silently replaced by the earlier, more general branch",
+		Run: runShadowedCase,
+	})
+}
+
+func runShadowedCase(rr *RuleRun) {
+	c := rr.Ctx
+	eachFuncBody(c, allPkgs, func(pkg string, fd *ast.FuncDecl, body *ast.BlockStmt) {
+		_ = c.Info(pkg)
+		inspectNoLit(body, func(n ast.Node) bool {
+			sw, ok := n.(*ast.SwitchStmt)
+			if !ok || sw.Tag != nil {
+				return true
+			}
+			type cs struct {
+				conj map[string]bool
+				pos  token.Pos
+				text string
+			}
+			var cases []cs
+			for _, cl := range sw.Body.List {
+				cc := cl.(*ast.CaseClause)
+				// a case with several expressions is a disjunction: each alternative separately
+				for _, e := range cc.List {
+					set := map[string]bool{}
+					var flat func(x ast.Expr)
+					flat = func(x ast.Expr) {
+						if be, ok := ast.Unparen(x).(*ast.BinaryExpr); ok && be.Op == token.LAND {
+							flat(be.X)
+							flat(be.Y)
+							return
+						}
+						set[exprStr(ast.Unparen(x))] = true
+					}
+					flat(e)
+					cases = append(cases, cs{set, e.Pos(), exprStr(e)})
+				}
+			}
+			key := fmt.Sprintf("%s.%s/switch@%s", pkg, declName(fd), c.PosStr(sw.Pos()))
+			bad := false
+			for j := 1; j < len(cases) && !bad; j++ {
+				for i := 0; i < j; i++ {
+					sub := len(cases[i].conj) > 0
+					for p := range cases[i].conj {
+						if !cases[j].conj[p] {
+							sub = false
+						}
+					}
+					if sub {
+						bad = true
+						rr.Violation(key, cases[j].pos, fmt.Sprintf("the case '%s' can never be taken: whenever it holds, the earlier case '%s' (whose condition it contains) holds too and is taken instead, so the handling written for the more specific case is dead", trunc(cases[j].text, 50), trunc(cases[i].text, 40)))
+						break
+					}
+				}
+			}
+			if !bad {
+				rr.OKTrivial(key, sw.Pos(), fmt.Sprintf("%d case condition(s), none contained in a later one", len(cases)))
+			}
+			return true
+		})
+	})
+}
